@@ -56,7 +56,7 @@ EXACT_ACTS = ["linear", "rectifier"]
 
 
 def build(ctx):
-    return ctx.harness("c04", ["c04.cpp"], repo_sources=["src/Models/RBFLayer.cpp", "src/Models/CMAC.cpp", "src/Core/Random.cpp"])
+    return ctx.harness("c04", ["c04.cpp"], repo_sources=["src/Models/RBFLayer.cpp", "src/Models/CMAC.cpp", "src/Models/Centroids.cpp", "src/Core/Random.cpp"])
 
 
 def dy(r, lo, hi, fracbits):
@@ -71,14 +71,14 @@ def vec(r, n, lo=-3, hi=3, fb=2):
 
 def gen_dense(r, exact):
     act = r.choice(EXACT_ACTS if exact else ACTS)
-    hb = r.below(2); nIn = r.range(1, 4); nOut = r.range(1, 4); B = r.choice([1, 1, 2, 3, 5])
+    hb = r.below(2); nIn = r.range(1, 4); nOut = r.range(1, 4); B = r.choice([0, 1, 1, 2, 3, 5])
     np_ = nOut * nIn + (nOut if hb else 0)
     return f"dense {act} {hb} {nIn} {nOut} {B} | {vec(r, np_)} | {vec(r, B * nIn)} | {vec(r, B * nOut)}"
 
 
 def gen_concat(r, exact):
     a1 = r.choice(EXACT_ACTS if exact else ACTS); a2 = r.choice(EXACT_ACTS if exact else ACTS)
-    h1 = r.below(2); h2 = r.below(2); nIn = r.range(1, 3); nHid = r.range(1, 3); nOut = r.range(1, 3); B = r.choice([1, 2, 4])
+    h1 = r.below(2); h2 = r.below(2); nIn = r.range(1, 3); nHid = r.range(1, 3); nOut = r.range(1, 3); B = r.choice([0, 1, 2, 4])
     np_ = nHid * nIn + (nHid if h1 else 0) + nOut * nHid + (nOut if h2 else 0)
     return f"concat {a1} {h1} {a2} {h2} {nIn} {nHid} {nOut} {B} | {vec(r, np_, -2, 2, 1)} | {vec(r, B * nIn, -2, 2, 1)} | {vec(r, B * nOut, -2, 2, 1)}"
 
@@ -86,7 +86,7 @@ def gen_concat(r, exact):
 def gen_chain(r, exact):
     """ConcatenatedModel of 2-4 layers: dense / element-wise neuron / softmax / normalizer layers, each optimised or frozen"""
     acts = EXACT_ACTS if exact else ACTS
-    B = r.choice([1, 2, 3]); nIn = r.range(1, 3)
+    B = r.choice([0, 1, 2, 3]); nIn = r.range(1, 3)
     specs, n, npar = [], nIn, 0
     L = r.range(2, 4)
     for li in range(L):
@@ -104,20 +104,20 @@ def gen_chain(r, exact):
 
 
 def gen_rowact(r):
-    kind = r.choice(["normalizer", "softmax"]); n = r.range(1, 5); B = r.range(1, 4)
+    kind = r.choice(["normalizer", "softmax"]); n = r.range(1, 5); B = r.range(0, 4)
     lo = 1 if kind == "normalizer" else -3      # normalizer rows must not sum to 0
     return f"rowact {kind} {n} {B} | {vec(r, n * B, lo, 4, 2)} | {vec(r, n * B)}"
 
 
 # ---------------------------------------------------------------- further model types
 def gen_normalizer(r):
-    hb = r.below(2); n = r.range(1, 5); B = r.choice([1, 2, 3, 5])
+    hb = r.below(2); n = r.range(1, 5); B = r.choice([0, 1, 2, 3, 5])
     return f"normalizer {hb} {n} {B} | {vec(r, n + (n if hb else 0))} | {vec(r, B * n)}"
 
 
 def gen_classifier(r, probe):
     """Classifier<LinearModel>: arg-max with ties (small integers), single thresholded output, optional bias"""
-    nIn = r.range(1, 3); nOut = r.range(1, 4); hb = r.below(2); hasBias = r.below(2); B = r.choice([1, 2, 3, 4])
+    nIn = r.range(1, 3); nOut = r.range(1, 4); hb = r.below(2); hasBias = r.below(2); B = r.choice([0, 1, 2, 3, 4])
     ints = r.chance(1, 2)
     fb = 0 if ints else 2
     np_ = nOut * nIn + (nOut if hb else 0)
@@ -138,7 +138,7 @@ def _perm(r, n):
 
 
 def gen_pool(r, probe):
-    h = r.range(1, 5); w = r.range(1, 5); d = r.range(1, 2); ph = r.range(1, min(h, 3)); pw = r.range(1, min(w, 3)); B = r.choice([1, 2, 3])
+    h = r.range(1, 5); w = r.range(1, 5); d = r.range(1, 2); ph = r.range(1, min(h, 3)); pw = r.range(1, min(w, 3)); B = r.choice([0, 1, 2, 3])
     nIn = h * w * d; nOut = (h // ph) * (w // pw) * d
     distinct = r.chance(1, 2)
     if distinct:      # no ties anywhere: the finite-difference oracle applies
@@ -149,18 +149,18 @@ def gen_pool(r, probe):
 
 
 def gen_resize(r):
-    h = r.range(1, 4); w = r.range(1, 4); d = r.range(1, 2); oh = r.range(1, 5); ow = r.range(1, 5); B = r.choice([1, 2, 3])
+    h = r.range(1, 4); w = r.range(1, 4); d = r.range(1, 2); oh = r.range(1, 5); ow = r.range(1, 5); B = r.choice([0, 1, 2, 3])
     return f"resize {h} {w} {d} {oh} {ow} {B} | {vec(r, B * h * w * d)} | {vec(r, B * oh * ow * d)}"
 
 
 def gen_rbf(r):
-    nIn = r.range(1, 3); nOut = r.range(1, 3); tc = r.below(2); tw = r.below(2); B = r.choice([1, 2, 3, 4])
+    nIn = r.range(1, 3); nOut = r.range(1, 3); tc = r.below(2); tw = r.below(2); B = r.choice([0, 1, 2, 3, 4])
     return (f"rbf {nIn} {nOut} {tc} {tw} {B} | {vec(r, nIn * nOut, -2, 2, 2)} | {vec(r, nOut, -1, 1, 2)} | "
             f"{vec(r, B * nIn, -2, 2, 2)} | {vec(r, B * nOut)}")
 
 
 def gen_kexp(r, exact):
-    nIn = r.range(1, 3); nB = r.range(1, 5); nOut = r.range(1, 3); hb = r.below(2); B = r.choice([1, 2, 3, 4])
+    nIn = r.range(1, 3); nB = r.range(1, 5); nOut = r.range(1, 3); hb = r.below(2); B = r.choice([0, 1, 2, 3, 4])
     bb = r.choice([0, 1, 2, nB])
     kern = "linear 0" if exact else f"gauss {dy(r, 1, 8, 3)}"
     return (f"kexp {kern} {nIn} {nB} {nOut} {hb} {bb} {B} | {vec(r, nB * nIn, -2, 2, 1)} | "
@@ -168,7 +168,7 @@ def gen_kexp(r, exact):
 
 
 def gen_ensemble(r, kind, single_output_ok):
-    M = r.range(1, 4); nIn = r.range(1, 3); hb = r.below(2); B = r.choice([1, 2, 3])
+    M = r.range(1, 4); nIn = r.range(1, 3); hb = r.below(2); B = r.choice([0, 1, 2, 3])
     nOut = r.range(1, 3) if (kind == "mean" or single_output_ok) else r.range(2, 4)
     np_ = nOut * nIn + (nOut if hb else 0)
     ws = " ".join(dy(r, 1, 4, 2) for _ in range(M))
@@ -178,8 +178,10 @@ def gen_ensemble(r, kind, single_output_ok):
 def gen_conv(r, exact, probe):
     """Conv2DModel: tiny images, 1-2 channels, 1-2 filters, both paddings"""
     act = r.choice(EXACT_ACTS if exact else ["tanh", "logistic"])
-    h = r.range(1, 4); w = r.range(1, 4); c = r.range(1, 2); nf = r.range(1, 2); fh = r.range(1, min(h, 3)); fw = r.range(1, min(w, 3))
-    valid = r.below(2); B = r.choice([1, 2, 3])
+    h = r.range(1, 4); w = r.range(1, 4); c = r.range(1, 2); nf = r.range(1, 2)
+    valid = r.below(2); B = r.choice([0, 1, 2, 3])
+    # with zero padding the filter may be larger than the image
+    fh = r.range(1, min(h, 3) if valid else 3); fw = r.range(1, min(w, 3) if valid else 3)
     oh = h - fh + 1 + (0 if valid else fh - 1); ow = w - fw + 1 + (0 if valid else fw - 1)
     npar = nf * fh * fw * c + nf
     return (f"conv {act} {valid} {h} {w} {c} {nf} {fh} {fw} {B} {1 if probe else 0} | {vec(r, npar, -2, 2, 1)} | {vec(r, B * h * w * c, -2, 2, 1)} | "
@@ -187,11 +189,99 @@ def gen_conv(r, exact, probe):
 
 
 def gen_cmac(r):
-    nIn = r.range(1, 2); nOut = r.range(1, 2); tilings = r.choice([1, 2, 4]); tiles = r.choice([2, 3, 5]); B = r.choice([1, 2, 3])
+    nIn = r.range(1, 2); nOut = r.range(1, 2); tilings = r.choice([1, 2, 4]); tiles = r.choice([2, 3, 5]); B = r.choice([0, 1, 2, 3])
     lo, up = r.choice([(0, 1), (-1, 1), (0, 2), (-2, 2)])
     npar = tiles ** nIn * tilings * nOut
     xs = " ".join(dy(r, lo, up, 3) for _ in range(B * nIn))
     return f"cmac {nIn} {nOut} {tilings} {tiles} {B} | {lo} {up} | {vec(r, npar, -2, 2, 1)} | {xs} | {vec(r, B * nOut)}"
+
+
+def gen_sparse(r, exact):
+    """LinearModel<CompressedRealVector>: rows with many zeros (also all-zero rows)"""
+    act = r.choice(EXACT_ACTS if exact else ["tanh"])
+    hb = r.below(2); nIn = r.range(1, 5); nOut = r.range(1, 3); B = r.choice([0, 1, 2, 3, 5])
+    np_ = nOut * nIn + (nOut if hb else 0)
+    xs = " ".join("0" if r.chance(1, 2) else dy(r, -3, 3, 2) for _ in range(B * nIn))
+    return f"sparse {act} {hb} {nIn} {nOut} {B} | {vec(r, np_)} | {xs} | {vec(r, B * nOut)}"
+
+
+def gen_kclass(r):
+    nIn = r.range(1, 3); nB = r.range(1, 4); nOut = r.range(1, 3); hb = r.below(2); B = r.choice([0, 1, 2, 3, 4])
+    fb = r.below(2)
+    return (f"kclass {nIn} {nB} {nOut} {hb} {B} | {vec(r, nB * nIn, -2, 2, fb)} | "
+            f"{vec(r, nB * nOut + (nOut if hb else 0), -2, 2, fb)} | {vec(r, B * nIn, -2, 2, fb)}")
+
+
+def gen_ovo(r):
+    """small integers: many vote ties"""
+    nIn = r.range(1, 2); classes = r.range(1, 4); B = r.choice([0, 1, 2, 3, 4])
+    nb = classes * (classes - 1) // 2
+    return f"ovo {nIn} {classes} {B} | {vec(r, nb * (nIn + 1), -2, 2, 0)} | {vec(r, B * nIn, -2, 2, 0)}"
+
+
+def _tree_script(r, nIn, nCls):
+    """random CARTree via createRoot / transformInternalNode / transformLeafNode; thresholds are small integers
+    so that inputs hit them exactly (`<=`)"""
+    open_, n, script = [0], 1, []
+    for _ in range(r.range(0, 4)):
+        nid = open_.pop(r.below(len(open_)))
+        script.append(f"I:{nid}:{r.below(nIn)}:{r.range(-1, 1)}")
+        open_ += [n, n + 1]; n += 2
+    for nid in open_:
+        script.append(f"L:{nid}:{r.below(nCls)}")
+    return " ".join(script)
+
+
+def gen_cart(r, allow_empty):
+    nIn = r.range(1, 3); nCls = r.range(1, 3); B = r.choice(([0] if allow_empty else []) + [1, 2, 3, 4])
+    return f"cart {nIn} {nCls} {B} | {_tree_script(r, nIn, nCls)} | {vec(r, B * nIn, -2, 2, r.below(2))}"
+
+
+def gen_rf(r, allow_empty):
+    nIn = r.range(1, 3); nCls = r.range(2, 3); M = r.range(1, 3); B = r.choice(([0] if allow_empty else []) + [1, 2, 3])
+    ws = " ".join(dy(r, 1, 4, 1) for _ in range(M))
+    return f"rf {nIn} {nCls} {B} | {ws} | " + " | ".join(_tree_script(r, nIn, nCls) for _ in range(M)) + f" | {vec(r, B * nIn, -2, 2, r.below(2))}"
+
+
+def gen_cluster(r):
+    """inputs that coincide with a centroid (distance 0 -> kernel 1e100) and duplicate centroids (ties) included"""
+    nIn = r.range(1, 3); nC = r.range(1, 4); B = r.choice([0, 1, 2, 3]); cb = r.choice([1, 2, nC])
+    cen = [[dy(r, -2, 2, 2) for _ in range(nIn)] for _ in range(nC)]
+    if nC > 1 and r.chance(1, 4): cen[-1] = list(cen[0])
+    rows = [list(r.choice(cen)) if r.chance(1, 4) else [dy(r, -2, 2, 2) for _ in range(nIn)] for _ in range(B)]
+    return f"cluster {nIn} {nC} {B} {cb} | {' '.join(' '.join(c) for c in cen)} | {' '.join(' '.join(x) for x in rows)}"
+
+
+def gen_dropout(r):
+    pr = r.choice(["0", "1", "1/1", "1/2", "3/2"]); n = r.range(1, 4); B = r.choice([0, 1, 2, 3])
+    xs = " ".join("0" if r.chance(1, 5) else dy(r, -3, 3, 2) for _ in range(B * n))
+    return f"dropout {pr} {n} {B} {r.below(1000)} | {xs} | {vec(r, B * n)}"
+
+
+def gen_nest(r, exact):
+    """nested ConcatenatedModels: groups `[:<opt> ... ]` up to depth 2, optimised or frozen as a whole"""
+    acts = EXACT_ACTS if exact else ACTS
+    B = r.choice([0, 1, 2, 3]); nIn = r.range(1, 2)
+    st = {"n": nIn, "npar": 0, "layers": 0, "groups": 0}
+
+    def seq(depth, count):
+        out = []
+        for _ in range(count):
+            x = r.below(10)
+            if depth < 2 and x < 4 and st["layers"] < 5:
+                o = 0 if r.chance(1, 3) else 1
+                st["groups"] += 1
+                out += [f"[:{o}"] + seq(depth + 1, r.range(1, 2)) + ["]"]
+            elif x < 8 or st["layers"] >= 5:
+                act = r.choice(acts); hb = r.below(2); nOut = r.range(1, 2); opt = 0 if r.chance(1, 4) else 1
+                out.append(f"d:{act}:{hb}:{nOut}:{opt}"); st["npar"] += nOut * st["n"] + (nOut if hb else 0); st["n"] = nOut; st["layers"] += 1
+            else:
+                out.append(f"n:{r.choice(acts)}:{r.below(2)}"); st["layers"] += 1
+        return out
+    specs = seq(0, r.range(1, 3))
+    if st["groups"] == 0:
+        specs = ["[:1"] + specs + ["]"]
+    return f"chain {B} {nIn} | {' '.join(specs)} | {vec(r, st['npar'], -2, 2, 1)} | {vec(r, B * nIn, -2, 2, 1)} | {vec(r, B * st['n'], -2, 2, 1)}"
 
 
 # findings of the real code that are modelled *as repaired*; corpus/C04/<file> holds the minimal input
@@ -201,6 +291,8 @@ FINDINGS = {
     "F-C04-3": "ensemble-vote-single-output-overflow",
     "F-C04-4": "conv2d-input-derivative-filter-layout",
     "F-C04-5": "parameterless-layer-gradient-not-resized",
+    "F-C04-6": "kernelexpansion-setstructure-keeps-offset",
+    "F-C04-7": "cartree-eval-empty-batch",
 }
 
 
@@ -263,10 +355,14 @@ def _finding_key(ops, res):
         return "F-C04-5"
     if hd[:1] == ["conv"] and len(hd) == 11 and hd[10] == "1" and "input-derivative-differs-from-finite-differences" in tags:
         return "F-C04-4"
+    if hd[:1] == ["kexp"] and len(hd) == 9 and hd[6] == "0" and res.crash and "probe history 1" in ops and "probe kexp-reconf 0" not in ops:
+        return "F-C04-6"
+    if hd[:1] in (["cart"], ["rf"]) and len(hd) == 4 and hd[3] == "0" and res.crash:
+        return "F-C04-7"
     return None
 
 
-_TWO_TOKEN_KINDS = ("dense", "concat", "rowact", "ensemble", "kexp", "conv")
+_TWO_TOKEN_KINDS = ("dense", "concat", "rowact", "ensemble", "kexp", "conv", "sparse")
 
 
 def _op_kind(o):
@@ -315,28 +411,68 @@ def run(ctx):
     per = 200 if ctx.quick else 8000
     half = per // 2
     p1, p2, p3, p4 = ("F-C04-1" not in present, "F-C04-2" not in present, "F-C04-3" not in present, "F-C04-4" not in present)
+    p6, p7 = "F-C04-6" not in present, "F-C04-7" not in present
     gs = "probe gradient-size " + ("0" if "F-C04-5" in present else "1")     # parameter-less layers evaluated on their own
-    exact_cases = [["mode rat", gen_dense(r, True)] for _ in range(per)] + [["mode rat", gen_concat(r, True)] for _ in range(per)] + \
-                  [["mode rat", gen_chain(r, True)] for _ in range(per)] + \
-                  [["mode rat", gen_normalizer(r)] for _ in range(half)] + [["mode rat", gen_classifier(r, p1)] for _ in range(per)] + \
-                  [["mode rat", gen_argmax(r)] for _ in range(half)] + [["mode rat", gen_pool(r, p2)] for _ in range(per)] + \
-                  [["mode rat", gen_kexp(r, True)] for _ in range(half)] + [["mode rat", gen_cmac(r)] for _ in range(half)] + \
-                  [["mode rat", gen_conv(r, True, p4)] for _ in range(half)]
-    float_cases = [["mode float", gen_dense(r, False)] for _ in range(per)] + [["mode float", gen_concat(r, False)] for _ in range(per)] + \
-                  [["mode float", gs, gen_rowact(r), GS_ON] for _ in range(per)] + [["mode float", gen_chain(r, False)] for _ in range(2 * per)] + \
-                  [["mode float", gs, gen_resize(r), GS_ON] for _ in range(half)] + [["mode float", gen_rbf(r)] for _ in range(per)] + \
-                  [["mode float", gen_kexp(r, False)] for _ in range(half)] + \
-                  [["mode float", gen_ensemble(r, "mean", True)] for _ in range(half)] + [["mode float", gen_ensemble(r, "vote", p3)] for _ in range(half)] + \
-                  [["mode float", gen_conv(r, False, p4)] for _ in range(half)]
+    kr = "probe kexp-reconf " + ("1" if p6 else "0")
+
+    def hist():
+        """every second case runs on objects with a history: built with another structure, evaluated, re-configured by
+        setStructure; State objects that have recorded another batch; copies / assignments"""
+        return f"probe history {r.below(2)}"
+    exact_cases = [["mode rat", hist(), gen_dense(r, True)] for _ in range(per)] + [["mode rat", hist(), gen_concat(r, True)] for _ in range(per)] + \
+                  [["mode rat", hist(), gen_chain(r, True)] for _ in range(per)] + [["mode rat", hist(), gen_nest(r, True)] for _ in range(half)] + \
+                  [["mode rat", hist(), gen_normalizer(r)] for _ in range(half)] + [["mode rat", hist(), gen_classifier(r, p1)] for _ in range(per)] + \
+                  [["mode rat", gen_argmax(r)] for _ in range(half)] + [["mode rat", hist(), gen_pool(r, p2)] for _ in range(per)] + \
+                  [["mode rat", hist(), kr, gen_kexp(r, True), KR_ON] for _ in range(half)] + [["mode rat", hist(), gen_cmac(r)] for _ in range(half)] + \
+                  [["mode rat", hist(), gen_conv(r, True, p4)] for _ in range(half)] + [["mode rat", hist(), gen_sparse(r, True)] for _ in range(half)] + \
+                  [["mode rat", gen_kclass(r)] for _ in range(half)] + [["mode rat", gen_ovo(r)] for _ in range(half)] + \
+                  [["mode rat", gen_cart(r, p7)] for _ in range(half)]
+    float_cases = [["mode float", hist(), gen_dense(r, False)] for _ in range(per)] + [["mode float", hist(), gen_concat(r, False)] for _ in range(per)] + \
+                  [["mode float", hist(), gs, gen_rowact(r), GS_ON] for _ in range(per)] + [["mode float", hist(), gen_chain(r, False)] for _ in range(2 * per)] + \
+                  [["mode float", hist(), gen_nest(r, False)] for _ in range(half)] + \
+                  [["mode float", hist(), gs, gen_resize(r), GS_ON] for _ in range(half)] + [["mode float", hist(), gen_rbf(r)] for _ in range(per)] + \
+                  [["mode float", hist(), kr, gen_kexp(r, False), KR_ON] for _ in range(half)] + \
+                  [["mode float", hist(), gen_ensemble(r, "mean", True)] for _ in range(half)] + [["mode float", hist(), gen_ensemble(r, "vote", p3)] for _ in range(half)] + \
+                  [["mode float", hist(), gen_conv(r, False, p4)] for _ in range(half)] + [["mode float", hist(), gen_sparse(r, False)] for _ in range(half // 2)] + \
+                  [["mode float", gen_rf(r, p7)] for _ in range(half)] + [["mode float", gen_cluster(r)] for _ in range(half)] + \
+                  [["mode float", gen_dropout(r)] for _ in range(half)]
+    nontrivial = set()
     for c in exact_cases + float_cases:
-        ctx.hist("op_kinds", c[0].split()[1] + ":" + " ".join(_main_op(c).split()[:2]))
+        op = _main_op(c); hd = op.split("|")[0].split(); B = _batch_size(op)
+        ctx.hist("op_kinds", c[0].split()[1] + ":" + " ".join(hd[:2] if hd[0] in _TWO_TOKEN_KINDS else hd[:1]))
+        ctx.hist("batch_size", str(B) if B < 4 else "4+")
+        ctx.hist("object_history", "history" if "probe history 1" in c else "fresh")
+        if hd[0] == "chain":
+            specs = op.split("|")[1].split()
+            ctx.hist("chain_layers", str(sum(1 for t in specs if t[0] in "dnr")))
+            ctx.hist("chain_nesting", "flat" if "]" not in specs else ("depth>=2" if any(specs[i][0] == "[" and specs[i + 1][0] == "[" for i in range(len(specs) - 1)) or _depth(specs) >= 2 else "depth1"))
+            ctx.hist("chain_frozen", "some-frozen" if any(t.endswith(":0") for t in specs if t[0] in "d[") else "all-optimised")
+        if hd[0] == "conv":
+            ctx.hist("conv_shape", ("valid" if hd[2] == "1" else "zeropad") + (":filter>image" if int(hd[7]) > int(hd[3]) or int(hd[8]) > int(hd[4]) else "") +
+                     (":even-filter" if int(hd[7]) % 2 == 0 or int(hd[8]) % 2 == 0 else "") + (":1x1-image" if hd[3] == hd[4] == "1" else ""))
+        if hd[0] == "pool":
+            ctx.hist("pool_ties", "distinct" if hd[7] == "1" else "ties")
+        if hd[0] in ("dense", "sparse"):
+            ctx.hist("dense_shape", f"in{min(int(hd[3]), 2)}{'+' if int(hd[3]) > 2 else ''}:out{min(int(hd[4]), 2)}{'+' if int(hd[4]) > 2 else ''}")
+        if B >= 2:
+            nontrivial.add(op)
     ctx.cov["evaluations"] = len(exact_cases) + len(float_cases)
-    ctx.cov["distinct_nontrivial"] = len({_main_op(c) for c in exact_cases + float_cases if _batch_size(_main_op(c)) >= 2})
+    ctx.cov["distinct_nontrivial"] = len(nontrivial)
     ctx.sample({"ops": exact_cases[0]}); ctx.sample({"ops": float_cases[-1]})
+    ctx.sample({"ops": next(c for c in exact_cases if "]" in _main_op(c))})
     core.correspond(ctx, "K-C04[exact]", exact_cases, [exe], [drv], classify, env=ENV, max_report=8)
     core.correspond(ctx, "K-C04[float]", float_cases, [exe], [drv], classify, cmp=cmp_tol, env=ENV, max_report=8)
 
 
+def _depth(specs):
+    d = m = 0
+    for t in specs:
+        if t[0] == "[": d += 1; m = max(m, d)
+        elif t == "]": d -= 1
+    return m
+
+
+KR_ON = "probe kexp-reconf 1"
 GS_ON = "probe gradient-size 1"
 
 
@@ -345,7 +481,8 @@ def _main_op(case):
 
 
 _B_POS = {"dense": 5, "concat": 8, "chain": 1, "rowact": 3, "normalizer": 3, "classifier": 5, "pool": 6, "resize": 6, "rbf": 5,
-          "kexp": 8, "ensemble": 6, "cmac": 5, "conv": 9}
+          "kexp": 8, "ensemble": 6, "cmac": 5, "conv": 9, "sparse": 5, "kclass": 5, "ovo": 3, "cart": 3, "rf": 3, "cluster": 3,
+          "dropout": 3}
 
 
 def _batch_size(op):
